@@ -100,6 +100,18 @@ func specC03(tier string) *SeqSpec {
 		}
 	}
 	s.InitSweep = staleSweep(reads, changes)
+	// elements of different lengths pushed by ONE command (they may share storage), the empty element among
+	// them; then values of other lengths than the element they replace or sit next to
+	for _, v := range []string{"", "z", "first", "0123456789abcdef0123456789abcdef"} {
+		var after []Op
+		for _, i := range []string{"0", "1", "2", "-1"} {
+			after = append(after, c("LSET", "k1", i, v), c("LSET", "k2", i, v))
+		}
+		after = append(after, c("LINSERT", "k1", "BEFORE", "three", v), c("LINSERT", "k1", "AFTER", "", v), c("RPUSH", "k1", v, "p", v), c("LPUSH", "k1", v), c("LREM", "k1", "0", v), c("LPOS", "k1", v), c("LSET", "k1", "1", v+v))
+		for _, a := range after {
+			s.InitSweep = append(s.InitSweep, Op{Args: []string{"DEL", "k1", "k2"}, Then: []Op{c("RPUSH", "k1", "one", "", "three", "b"), c("LPUSH", "k2", "", "b", "cc"), a, c("LRANGE", "k1", "0", "-1"), c("LRANGE", "k2", "0", "-1")}})
+		}
+	}
 	s.Depth = 3
 	if tier == "thorough" {
 		s.Depth = 4
